@@ -444,7 +444,9 @@ EvFold(gg, p, r, acc, e) ==
 RECURSIVE DueV(_, _, _, _)
 DueV(gg, p, pe, q) ==
   IF q >= gg.N THEN <<>>
-  ELSE LET ph == pe.evs[q][1]
+  ELSE LET \* a player that was dropped because another peer reported it (gossip) gets no event
+           gone == \E h \in 0..gg.NP-1 : gg.owner[h] = q /\ pe.stat[h][1]
+           ph == IF gone THEN "disc" ELSE pe.evs[q][1]
        IN When(ph = "run" /\ pe.sil[q] > gg.notify /\ gg.notify < gg.timeout,
                V("C07", 0, "interruption-not-reported", <<p, q, pe.sil[q]>>))
           \o When(ph \in {"run", "intr"} /\ pe.sil[q] > gg.timeout,
@@ -504,8 +506,27 @@ ProgressV(gg, p) ==
 \* the code under test panicked in this call: a violation of the property being checked; the
 \* peer is gone afterwards
 PanicLine(gg, r) ==
-  AddViol([gg EXCEPT !.pr[r.p].alive = FALSE, !.stats.panics = @ + 1],
-          V("PANIC", r.n, r.r, <<r.p, r.a>>))
+  LET live == {p \in 0..gg.N-1 : ~gg.isSpec[p] /\ gg.pr[p].alive}
+      \* history class of C10's known finding: a player whose peer is gone and of whose input the
+      \* surviving sessions hold different amounts
+      unequal == \E h \in 0..gg.NP-1 : gg.owner[h] \notin live
+                    /\ \E a, b \in live : gg.pr[a].stat[h][2] # gg.pr[b].stat[h][2]
+      cls == IF unequal THEN "cls:unequal-views-of-dropped-player" ELSE "cls:none"
+  IN AddViol([gg EXCEPT !.pr[r.p].alive = FALSE, !.stats.panics = @ + 1],
+             V("PANIC", r.n, r.r, <<r.p, r.a, cls>>))
+
+\* C10: at the end of a run all surviving player sessions treat every player the same way:
+\* connected everywhere, or disconnected everywhere as of the same last frame
+CutoffV(gg) ==
+  LET live == {p \in 0..gg.N-1 : ~gg.isSpec[p] /\ gg.pr[p].alive /\ gg.pr[p].run}
+      bad(h) == \E a, b \in live : gg.pr[a].stat[h] # gg.pr[b].stat[h]
+                                    /\ (gg.pr[a].stat[h][1] \/ gg.pr[b].stat[h][1])
+                                    /\ gg.owner[h] \notin live
+      hs == {h \in 0..gg.NP-1 : bad(h)}
+  IN IF hs = {} THEN <<>>
+     ELSE LET h == CHOOSE x \in hs : TRUE
+          IN V("C10", 0, "survivors-disagree-on-cutoff",
+               <<h, [p \in live |-> gg.pr[p].stat[h]]>>)
 
 \* C09 detection half: a real divergence from frame corruptFrom on is reported to every peer for
 \* a frame at or after it, within a few reporting intervals
@@ -535,7 +556,8 @@ Update(gg, r) ==
     [] a = "mark" -> [gg EXCEPT !.marked = TRUE, !.minProgress = r.min_progress,
                                 !.pr = [p \in 0..gg.N-1 |-> [gg.pr[p] EXCEPT !.mark = gg.pr[p].cur]]]
     [] a = "end"  -> LET g1 == IF Get(r, "faults_hit", 0) > 0 THEN Bump(gg, "runsWithPlannedFault", 1) ELSE gg
-                         g2 == IF g1.N > 0 /\ g1.corrupt THEN AddViol(g1, DetectV(g1, 0)) ELSE g1
+                         g2a == IF g1.N > 0 /\ g1.corrupt THEN AddViol(g1, DetectV(g1, 0)) ELSE g1
+                         g2 == IF g2a.N > 0 THEN AddViol(g2a, CutoffV(g2a)) ELSE g2a
                      IN IF g2.N > 0 /\ g2.marked
                         THEN AddViol(Bump(g2, "progressChecked", 1), ProgressV(g2, 0)) ELSE g2
     [] a = "dlv"  -> Bump(gg, "delivered", 1)
